@@ -303,6 +303,10 @@ func runRT(tr *evlist, sci int, sc *Scen, tmp string) {
 	}
 	tr.Emit(libEvent(sci, f, tmp))
 	// every cut offset (0 .. size inclusive), copying and zero-copy calls; equal consecutive observations form one run
+	bounds := append([]int(nil), bl.wofs...) // block boundaries from the file's own length fields
+	for _, b := range walk(sc.Fmt, f) {
+		bounds = append(bounds, b[1].(int), b[1].(int)+b[2].(int))
+	}
 	for _, m := range []string{"copy", "zero"} {
 		lo := 0
 		var k0 int
@@ -312,6 +316,9 @@ func runRT(tr *evlist, sci int, sc *Scen, tmp string) {
 			tr.Emit(vh.M{"op": "cuts", "sc": sci, "mode": m, "lo": lo, "hi": hi, "k": k0, "end": end0, "tds": tds0})
 		}
 		for cut := 0; cut <= len(f); cut++ {
+			if len(f) > 40000 && cut%1009 != 0 && !nearBoundary(cut, bounds, len(f)) {
+				continue // large files: every offset around the block boundaries, a stride elsewhere
+			}
 			pk, end, _ := readAll(sc, f[:cut:cut], m, sc.Fmt == "ng" && sc.Mixed, np+4)
 			tds := make([]string, len(pk))
 			for i := range pk {
@@ -329,6 +336,18 @@ func runRT(tr *evlist, sci int, sc *Scen, tmp string) {
 		flush(len(f) + 1)
 	}
 	tr.Emit(vh.M{"op": "done", "sc": sci})
+}
+
+func nearBoundary(cut int, wofs []int, size int) bool {
+	if cut < 64 || size-cut < 64 {
+		return true
+	}
+	for _, o := range wofs {
+		if d := cut - o; d > -64 && d < 64 {
+			return true
+		}
+	}
+	return false
 }
 
 func loadScenarios(path string) []*Scen {
@@ -368,8 +387,14 @@ func randStr(r *vh.Rand, n int) string {
 
 // randomScenario goes beyond the bounds of PcapFileGen.tla: more and larger packets (files that exceed the
 // readers' 4096-byte buffers), option strings around the 1024-byte option buffer, arbitrary timestamps.
-func randomScenario(r *vh.Rand) *Scen {
+// Every sixth one (alternating formats) is a jumbo scenario: packets around and above 64 KiB (the readers' chunked
+// read path and the 16-bit boundary) between small ones.
+func randomScenario(r *vh.Rand, i int) *Scen {
 	caps := []int{0, 1, 2, 3, 4, 5, 17, 60, 1023, 1024, 1025, 1500, 3000, 4095, 4096, 4097}
+	jumbo := i%6 >= 4
+	if jumbo {
+		caps = []int{60, 98, 1514, 65535, 65536, 65537, 65549, 70000, 131073}
+	}
 	strl := []int{0, 1, 3, 4, 5, 17, 255, 1023, 1024, 1025, 1500}
 	ts := func() (int64, int) {
 		switch r.Intn(4) {
@@ -381,10 +406,22 @@ func randomScenario(r *vh.Rand) *Scen {
 		return int64(r.Intn(0x7fffffff)), r.Intn(1000000000)
 	}
 	n := 1 + r.Intn(7)
-	if r.Intn(2) == 0 {
+	if jumbo {
+		n = 3 + r.Intn(2)
+	}
+	pick := func(k int) int {
+		if jumbo { // small, large, small, ...
+			if k%2 == 1 {
+				return caps[3+r.Intn(len(caps)-3)]
+			}
+			return caps[r.Intn(3)]
+		}
+		return caps[r.Intn(len(caps))]
+	}
+	if (!jumbo && r.Intn(2) == 0) || (jumbo && i%6 == 4) {
 		sc := &Scen{Fmt: "pcap", Nano: r.Bool(), Snap: 262144, Link: []int{1, 113, 127}[r.Intn(3)]}
 		for i := 0; i < n; i++ {
-			c := caps[r.Intn(len(caps))]
+			c := pick(i)
 			s, ns := ts()
 			sc.Items = append(sc.Items, Item{T: "pkt", Cap: c, Len: c + r.Intn(3)*r.Intn(2000), S: s, Ns: ns})
 		}
@@ -392,7 +429,11 @@ func randomScenario(r *vh.Rand) *Scen {
 	}
 	str := func() string { return randStr(r, strl[r.Intn(len(strl))]) }
 	idb := func(link int) Item {
-		return Item{T: "idb", Link: link, Snap: []int{0, 65535, 262144}[r.Intn(3)], Name: str(), Cmt: str(), Descr: str(), Filter: str(), Os: str()}
+		snap := []int{0, 65535, 262144}[r.Intn(3)]
+		if jumbo && snap == 65535 {
+			snap = 0
+		}
+		return Item{T: "idb", Link: link, Snap: snap, Name: str(), Cmt: str(), Descr: str(), Filter: str(), Os: str()}
 	}
 	sc := &Scen{Fmt: "ng", Mixed: r.Intn(3) == 0, Shb: Shb{App: str(), Cmt: str(), Hw: str(), Os: str()}}
 	sc.Items = append(sc.Items, idb(1))
@@ -406,7 +447,7 @@ func randomScenario(r *vh.Rand) *Scen {
 			sc.Items = append(sc.Items, idb(l))
 			nif++
 		}
-		c := caps[r.Intn(len(caps))]
+		c := pick(i)
 		s, ns := ts()
 		it := Item{T: "pkt", Ifc: r.Intn(nif), Cap: c, Len: c + r.Intn(3)*r.Intn(2000), S: s, Ns: ns, Fl: -1, Dc: -1, Pid: -1, Q: -1}
 		for k := r.Intn(3); k > 0; k-- {
@@ -443,7 +484,7 @@ func mainRT(scenPath, tracePath string, nrand int, seed uint64, workers int) {
 	scs := loadScenarios(scenPath)
 	r := vh.NewRand(seed)
 	for i := 0; i < nrand; i++ {
-		scs = append(scs, randomScenario(r))
+		scs = append(scs, randomScenario(r, i))
 	}
 	if workers < 1 {
 		workers = 1
